@@ -10,7 +10,9 @@ import (
 type Obj struct {
 	NS, Name string
 	Labels   map[string]string
-	Sel      map[string]string
+	// LabelsNil: Labels is a nil map (token `nil`); krt.FilterSelects(nil) does not filter at all
+	LabelsNil bool
+	Sel       map[string]string
 	Outs     []string
 	Ref      string
 	Val      string
@@ -40,7 +42,11 @@ func pairs(m map[string]string) string {
 
 // Token renders `ns;name;labels;sel;outs;ref;val`.
 func (o Obj) Token() string {
-	return strings.Join([]string{o.NS, o.Name, pairs(o.Labels), pairs(o.Sel), strings.Join(o.Outs, ","), o.Ref, o.Val}, ";")
+	lbl := pairs(o.Labels)
+	if o.LabelsNil {
+		lbl = "nil"
+	}
+	return strings.Join([]string{o.NS, o.Name, lbl, pairs(o.Sel), strings.Join(o.Outs, ","), o.Ref, o.Val}, ";")
 }
 
 func splitNE(s, sep string) []string {
@@ -70,6 +76,9 @@ func parseObj(t string) (Obj, bool) {
 	f := strings.Split(t, ";")
 	if len(f) != 7 {
 		return Obj{}, false
+	}
+	if f[2] == "nil" {
+		return Obj{NS: f[0], Name: f[1], LabelsNil: true, Sel: parsePairs(f[3]), Outs: splitNE(f[4], ","), Ref: f[5], Val: f[6]}, true
 	}
 	return Obj{NS: f[0], Name: f[1], Labels: parsePairs(f[2]), Sel: parsePairs(f[3]), Outs: splitNE(f[4], ","), Ref: f[5], Val: f[6]}, true
 }
